@@ -441,6 +441,15 @@ def plan(ctx):
                       'preprocessors preserve the number of examples']
   ctx.pmap('explore', [{'root': r, 'depth': depth, 'seed': ctx.seed, 'thorough': th}
                        for r in ('mem', 'sql', 'sub_mem', 'sub_sql')], chunk=1)
+  # long preprocessor chains (3..5 registrations on one lineage, every order of the distinguishable functions), replayed as
+  # single histories; slices / subsets interleaved
+  import itertools as _it
+  chains = [[('pc', a) for a in seq] for n in (3, 4) for seq in _it.product((1, 2), repeat=n)]
+  chains += [[('pb', a) for a in seq] for seq in _it.product((3, 4), repeat=3)]
+  chains += [[('pc', 1), ('pb', 3), ('pc', 2), ('pb', 4), ('pc', 1)], [('pc', 2), ('slice', b'a\x00', None), ('pc', 1), ('subset', 'S_z'), ('pc', 1), ('pb', 4)],
+             [('pb', 4), ('pc', 1), ('pc', 2), ('slice', None, OUTSIDE), ('pc', 2), ('pb', 3), ('pb', 3)]]
+  ctx.pmap('explore', [{'root': r, 'depth': len(ch), 'seed': ctx.seed, 'ops': [enc_op(o) for o in ch]}
+                       for r in ('mem', 'sql', 'sub_mem', 'sub_sql') for ch in chains], chunk=16)
   hists = [[], [enc_op(('slice', b'a\x00', None))], [enc_op(('subset', 'S_z'))], [enc_op(('pc', 1)), enc_op(('slice', None, b'b\x00\x00'))],
            [enc_op(('subset', 'S_all')), enc_op(('pb', 3))]]
   ctx.pmap('other_process', [{'root': r, 'histories': hists, 'hashseeds': [hs], 'seed': ctx.seed}
